@@ -8,6 +8,13 @@ from bisturi.descriptor import Auto, AutoLength
 from bisturi.field import Field
 
 
+def nonzero(v):
+    # a user's helper for callbacks: it fails with an exception that carries NO message
+    if not v:
+        raise ValueError()
+    return v
+
+
 class Hex(Field):
     # a user-defined field as the documentation describes them: n bytes <-> their hexadecimal spelling
     def __init__(self, n=3, default=None):
